@@ -207,6 +207,22 @@ def enc_rat(v):
     return str(f.numerator) if f.denominator == 1 else f"{f.numerator}/{f.denominator}"
 
 
+def enc_x(v):
+    v = float(v)
+    if v == float("inf"):
+        return "inf"
+    if v == float("-inf"):
+        return "-inf"
+    return enc_rat(v)
+
+
+def enc_xdata(M):
+    M = np.asarray(M)
+    if M.size == 0:
+        return "-"
+    return ";".join(",".join(enc_x(v) for v in row) for row in M)
+
+
 def enc_data(M):
     M = np.asarray(M)
     if M.size == 0:
@@ -342,6 +358,43 @@ def run(ctx):
                        A(np.zeros((m, nb)), "int32"), A(np.zeros((nb, nb)), "int32"),
                        A(np.zeros((m, m)), "float32")],
                       (m, T, nb, d1.tobytes().hex(), d2.tobytes().hex()), m * T > 0)
+    # data, scaling and range_min with infinities (what min / max / 1/(max-min) of such data give:
+    # range_min = -inf or the least finite value, scaling = 0, a power of two, or +inf)
+    for (m, T) in [g for g in grid if g[0] * g[1] > 0][:(10 if quick else 40)]:
+        for fn in ("mi", "tmi"):
+            nb = rng.choice([1, 2, 3, 4, 8])
+            pw = rng.choice([0, 1, -3, 10])
+            rm = rng.choice([0.0, -1.0, float("-inf")])
+            sc = rng.choice([0.0, 2.0 ** (-pw), float("inf")])
+            lo = 0.0 if rm == float("-inf") else rm
+
+            def xd():
+                d = dyadic(nprng, (m, T), lo, pw, rng.choice([0.0, 0.2]))
+                for _k in range(rng.randrange(1, 3)):
+                    d.flat[rng.randrange(d.size)] = float("inf") if (rm != float("-inf")
+                                                                     or rng.random() < 0.5) else rm
+                return d
+            ctx.count(f"trace-inf:{fn}:scaling={enc_x(sc) if sc in (0.0, float('inf')) else 'finite'}"
+                      f":range_min={'-inf' if rm == float('-inf') else 'finite'}")
+            if fn == "mi":
+                d = xd()
+                add_trace("mi", f"tracex mi {m} {T} {nb} {enc_x(sc)} {enc_x(rm)} {enc_xdata(d)}",
+                          [T, m, nb, sc, rm],
+                          [A(d, "float32"), A(np.zeros((m, T)), "int64"), A(np.zeros((m, nb)), "int64"),
+                           A(np.zeros((nb, nb)), "int64"), A(np.zeros((m, m)), "float32")],
+                          ("inf", m, T, nb, sc, rm, d.tobytes().hex()), True,
+                          {"routine": "_mutual_information", "data": "with +-inf", "scaling": enc_x(sc),
+                           "range_min": enc_x(rm)})
+            else:
+                d1, d2 = xd(), xd()
+                add_trace("tmi", f"tracex tmi {m} {T} {nb} {enc_x(sc)} {enc_x(rm)} "
+                                 f"{enc_xdata(d1)} {enc_xdata(d2)}",
+                          [m, T, nb, sc, rm],
+                          [A(d1, "float64"), A(d2, "float64"), A(np.zeros((m, T)), "int32"),
+                           A(np.zeros((m, T)), "int32"), A(np.zeros((m, nb)), "int32"),
+                           A(np.zeros((m, nb)), "int32"), A(np.zeros((nb, nb)), "int32"),
+                           A(np.zeros((m, m)), "float32")],
+                          ("inf", m, T, nb, sc, rm, d1.tobytes().hex(), d2.tobytes().hex()), True)
     for N in [0, 1, 2, 3, 4, 5] + ([] if quick else [6, 7, 9]):
         adm, R = nprng.rand(N, N), nprng.rand(N, N)
         for i in range(N):
